@@ -52,7 +52,7 @@ def run_shard(spec, rng, ctx):
     end = C.budget(spec)
     algs = list(C.ALL_PART)
     i = 0
-    while i < spec["max_cases"] and time.time() < end:
+    while i < spec["max_cases"] and C.now() < end:
         # rotate algorithms so that each gets its share regardless of cost
         alg = algs[i % len(algs)]
         case = C.draw_partition_case(rng, alg=alg, classes=CLASSES)
